@@ -226,6 +226,60 @@ Definition segments (a : wal) : list (list byte) := a_closed a ++ [b_file (r_bw 
 Definition cur_file (a : wal) : list byte := b_file (r_bw (a_w a)).
 Definition cur_buf (a : wal) : list byte := b_buf (r_bw (a_w a)).
 
+(* ------------------------------------------------------------------ the repaired Wal (fix of C15-N1/N2/N10) *)
+(* src/wal/manager.rs after the repair: `Wal` carries `failed`.  `fstep`/`frun` above are the writer as it
+   was BEFORE the repair (nothing undone on an error path, the writer usable again afterwards); they
+   stay as the inner operations and as the regression record.  `xstep`/`xrun` are the code as it is:
+   * Wal::fail(): failed := true; Writer::abandon_buffer() — the BufWriter is replaced by an empty one
+     (BufWriter::into_parts: nothing that is buffered is written, now or on drop), pending_sync := false.
+   * append: closed -> Err; empty record -> Err (both without I/O; the model answers the empty record
+     first, the two orders differ only in the error text); check_not_failed()?; add_record, on Err fail().
+   * flush / sync: closed -> Ok(()) (nothing done); check_not_failed()?; on Err fail().
+   * rotate: check_not_failed()? (closed is NOT checked); active_writer.sync(), on Err fail(); new segment.
+   * close: closed -> Ok; closed := true; if !failed { active_writer.close()? = sync()? } — an error of
+     that sync is returned but does not set `failed`; then the directory fsync (not a data operation). *)
+Record walx := { x_wal : wal; x_failed : bool; x_shut : bool }.
+Inductive xcmd := XC (c : wcmd) | XClose.
+(* XOk; XRejected = empty record; XFail r = the operation ran and failed as r; XRefused = refused
+   without touching the file (an earlier WAL write failed, or append on a closed Wal) *)
+Inductive xres := XOk | XRejected | XFail (r : fres) | XRefused.
+
+Definition abandon (a : wal) : wal :=
+  set_w a {| r_bw := {| b_file := b_file (r_bw (a_w a)); b_buf := []; b_wc := b_wc (r_bw (a_w a)) |};
+             r_boff := r_boff (a_w a); r_psync := false |}.
+
+Definition walx0 : walx := {| x_wal := wal0; x_failed := false; x_shut := false |}.
+
+(* the outcome of an inner operation: an error makes the Wal fail *)
+Definition lift (x : walx) (o : wal * fres) : walx * xres :=
+  let '(a1, r) := o in
+  match r with
+  | FOk => ({| x_wal := a1; x_failed := x_failed x; x_shut := x_shut x |}, XOk)
+  | FRejected => ({| x_wal := a1; x_failed := x_failed x; x_shut := x_shut x |}, XRejected)
+  | _ => ({| x_wal := abandon a1; x_failed := true; x_shut := x_shut x |}, XFail r)
+  end.
+
+Definition xstep (x : walx) (c : xcmd) : walx * xres :=
+  match c with
+  | XC (CAppend []) => (x, XRejected)
+  | XC (CAppend p) =>
+    if x_shut x || x_failed x then (x, XRefused) else lift x (fstep (x_wal x) (CAppend p))
+  | XC CFlush => if x_shut x then (x, XOk) else if x_failed x then (x, XRefused) else lift x (do_flush (x_wal x))
+  | XC CSync => if x_shut x then (x, XOk) else if x_failed x then (x, XRefused) else lift x (do_sync (x_wal x))
+  | XC CRotate => if x_failed x then (x, XRefused) else lift x (do_rotate (x_wal x))
+  | XClose =>
+    if x_shut x then (x, XOk) else
+    if x_failed x then ({| x_wal := x_wal x; x_failed := true; x_shut := true |}, XOk) else
+    let '(a1, r) := do_sync (x_wal x) in
+    ({| x_wal := a1; x_failed := false; x_shut := true |}, match r with FOk => XOk | _ => XFail r end)
+  end.
+
+Fixpoint xrun (x : walx) (cs : list xcmd) : walx * list xres :=
+  match cs with
+  | [] => (x, [])
+  | c :: r => let '(x1, o) := xstep x c in let '(x2, os) := xrun x1 r in (x2, o :: os)
+  end.
+
 End FailModel.
 
 (* ------------------------------------------------------------------ bookkeeping over a run *)
@@ -266,6 +320,32 @@ Fixpoint is_subseq (a b : list (list byte)) : bool :=
   | _ :: _, [] => false
   | x :: a', y :: b' => if list_eqb x y then is_subseq a' b' else is_subseq a b'
   end.
+
+(* ---- bookkeeping over a run of the repaired Wal ---- *)
+Definition is_xack (c : xcmd) (r : xres) : bool :=
+  match c, r with XC (CAppend (_ :: _)), XOk => true | _, _ => false end.
+Definition is_xfail (r : xres) : bool := match r with XFail _ | XRefused => true | _ => false end.
+(* payloads of the acknowledged appends, in order *)
+Fixpoint xacked (cs : list xcmd) (rs : list xres) : list (list byte) :=
+  match cs, rs with
+  | XC (CAppend (x :: p)) :: cs', XOk :: rs' => (x :: p) :: xacked cs' rs'
+  | _ :: cs', _ :: rs' => xacked cs' rs'
+  | _, _ => []
+  end.
+Definition xno_rotate (cs : list xcmd) : bool :=
+  forallb (fun c => match c with XC CRotate => false | _ => true end) cs.
+Definition xno_close (cs : list xcmd) : bool :=
+  forallb (fun c => match c with XClose => false | _ => true end) cs.
+(* an append is acknowledged after some command failed or was refused *)
+Fixpoint xack_after (seen : bool) (cs : list xcmd) (rs : list xres) : bool :=
+  match cs, rs with
+  | c :: cs', r :: rs' => (seen && is_xack c r) || xack_after (seen || is_xfail r) cs' rs'
+  | _, _ => false
+  end.
+(* the one class that remains at the level of a COMMIT (append followed by its sync): the fsync fails
+   when the record is already in the file *)
+Definition xknown_fsync_failed (rs : list xres) : bool :=
+  existsb (fun r => match r with XFail FFailFsync => true | _ => false end) rs.
 
 (* ------------------------------------------------------------------ injectable fault plans *)
 (* shim/shim.c: VERIF_SHIM_FAIL = n:kind[:sticky]; n counts from 1; write kinds count write calls,
